@@ -89,6 +89,10 @@ pub mod implementations {
             bail!("neg requires one item on the local operating stack")
         };
 
+        if let Primitive::HeapPrimitive(_) = val {
+            *val = val.move_out_of_heap_primitive_borrow()?.into_owned();
+        }
+
         val.negate()?;
 
         Ok(())
@@ -99,6 +103,10 @@ pub mod implementations {
         let Some(val) = ctx.get_last_op_item_mut() else {
             bail!("not requires one item on the local operating stack")
         };
+
+        if let Primitive::HeapPrimitive(_) = val {
+            *val = val.move_out_of_heap_primitive_borrow()?.into_owned();
+        }
 
         let Primitive::Bool(val) = val else {
             bail!("not can only negate booleans")
@@ -1133,15 +1141,22 @@ pub mod implementations {
             bail!("store_skip can only store a single item");
         }
 
-        let arg = ctx.get_last_op_item().unwrap();
+        let val = {
+            let arg = ctx
+                .get_last_op_item()
+                .unwrap()
+                .move_out_of_heap_primitive_borrow()?;
 
-        let Primitive::Bool(val) = arg else {
-            bail!("store_skip can only operate on bool (found {arg})");
+            let Primitive::Bool(val) = arg.as_ref() else {
+                bail!("store_skip can only operate on bool (found {arg})");
+            };
+
+            *val
         };
 
         if predicate == 1 {
             // skip if true
-            if *val {
+            if val {
                 ctx.signal(InstructionExitState::Goto(lines_to_jump));
                 return Ok(());
             }
@@ -1301,7 +1316,7 @@ pub mod implementations {
             bail!("assert can only operate on a single item");
         }
 
-        let item = ctx.pop().unwrap();
+        let item = ctx.pop().unwrap().move_out_of_heap_primitive()?;
 
         let result = item.equals(&bool!(true))?;
 
@@ -1352,7 +1367,7 @@ pub mod implementations {
             bail!("if statements require at least one entry in the local stack")
         }
 
-        let item = ctx.pop().unwrap();
+        let item = ctx.pop().unwrap().move_out_of_heap_primitive()?;
         ctx.clear_stack();
 
         let Primitive::Bool(b) = item else {
@@ -1378,7 +1393,7 @@ pub mod implementations {
             bail!("while statements require at least one entry in the local stack")
         }
 
-        let item = ctx.pop().unwrap();
+        let item = ctx.pop().unwrap().move_out_of_heap_primitive()?;
         ctx.clear_stack();
 
         let Primitive::Bool(b) = item else {
